@@ -3,7 +3,7 @@
    (libmyth-ld.a, @myth-ld.opts) and for preloading (libmyth-dl.so).  It prints the observable result in the
    shape of the specification's Result record.
 
-   program file:  NT / barn[4] / keydt[4] / mutex kind[4] (0: pthread_mutex_init, 1: PTHREAD_MUTEX_INITIALIZER)
+   program file:  NT / barn[4] / keydt[4] / mutex kind[4] (0: pthread_mutex_init, 1: PTHREAD_MUTEX_INITIALIZER) / nfill
                   then per thread: nops, and nops lines "op a b c"                                                   */
 #define _GNU_SOURCE
 #include <pthread.h>
@@ -21,6 +21,7 @@ typedef struct { int op, a, b, c; } op_t;
 #define NOBJ 4
 static int NT; static int nops[MAXT]; static op_t ops[MAXT][MAXOPS];
 static int barn[NOBJ], keydt[NOBJ], mkind[NOBJ];
+static int nfill;      /* keys without destructor created before the keys under test (so that these get larger indices) */
 static pthread_t handle[MAXT]; static pthread_t main_handle;
 static pthread_mutex_t MD[NOBJ];
 static pthread_mutex_t MS[NOBJ] = { PTHREAD_MUTEX_INITIALIZER, PTHREAD_MUTEX_INITIALIZER, PTHREAD_MUTEX_INITIALIZER, PTHREAD_MUTEX_INITIALIZER };
@@ -101,12 +102,14 @@ int main(int argc, char **argv){
   for (i = 0; i < NOBJ; i++) if (fscanf(fp, "%d", &barn[i]) != 1) return 2;
   for (i = 0; i < NOBJ; i++) if (fscanf(fp, "%d", &keydt[i]) != 1) return 2;
   for (i = 0; i < NOBJ; i++) if (fscanf(fp, "%d", &mkind[i]) != 1) return 2;
+  if (fscanf(fp, "%d", &nfill) != 1) return 2;
   for (t = 1; t <= NT; t++){
     if (fscanf(fp, "%d", &nops[t]) != 1 || nops[t] >= MAXOPS) return 2;
     for (i = 0; i < nops[t]; i++) if (fscanf(fp, "%d %d %d %d", &ops[t][i].op, &ops[t][i].a, &ops[t][i].b, &ops[t][i].c) != 4) return 2;
   }
   fclose(fp);
   main_handle = pthread_self();
+  for (i = 0; i < nfill; i++){ pthread_key_t k_; pthread_key_create(&k_, 0); }
   for (i = 0; i < NOBJ; i++){
     pthread_mutex_init(&MD[i], 0); pthread_cond_init(&CV[i], 0); pthread_spin_init(&SP[i], PTHREAD_PROCESS_PRIVATE);
     if (barn[i] > 0) pthread_barrier_init(&BR[i], 0, (unsigned)barn[i]);
